@@ -1,6 +1,7 @@
 package main
 
 import (
+	"bytes"
 	"crypto/x509/pkix"
 	"encoding/asn1"
 	"fmt"
@@ -294,6 +295,7 @@ func runC10(c *Ctx) {
 	})
 	// the order-dependent cache witness of round 0, as a fixed regression case
 	runC10CacheWitness(c)
+	runC10Lookalikes(c)
 }
 
 type entity struct {
@@ -818,5 +820,115 @@ func runC10CacheWitness(c *Ctx) {
 			}
 		}
 		rep.Eval(fmt.Sprintf("cache-witness/order=%d", oi))
+	}
+}
+
+// runC10Lookalikes: certificates that share identifying fields with a trusted root or with a pool member but are other
+// certificates (another key, self-signed or signed by an outsider). Pool membership is by certificate, not by name,
+// serial number or key: none of them may be accepted as, or in place of, the certificate it imitates.
+func runC10Lookalikes(c *Ctx) {
+	rep := c.Rep
+	r := c.Rng("lookalike")
+	must := func(t, p *gx509.Certificate, pub *sm2.PublicKey, k *sm2.PrivateKey) *gx509.Certificate {
+		der, err := gx509.CreateCertificate(t, p, pub, k)
+		if err != nil {
+			return nil
+		}
+		cc, _ := gx509.ParseCertificate(der)
+		return cc
+	}
+	for trial := 0; trial < c.Q(6, 100); trial++ {
+		kR, kI, kF, kL := newSM2Key(r), newSM2Key(r), newSM2Key(r), newSM2Key(r)
+		serial := int64(1 + r.Intn(1000))
+		tmpl := func(cn string, sn int64, ca bool, dns []string) *gx509.Certificate {
+			return &gx509.Certificate{SerialNumber: big.NewInt(sn), Subject: pkix.Name{CommonName: cn, Organization: []string{"LA"}}, NotBefore: fixedNow.Add(-time.Hour), NotAfter: fixedNow.Add(time.Hour),
+				BasicConstraintsValid: true, IsCA: ca, MaxPathLen: -1, SignatureAlgorithm: gx509.SM2WithSM3, DNSNames: dns, KeyUsage: gx509.KeyUsageCertSign | gx509.KeyUsageDigitalSignature}
+		}
+		tR := tmpl("LA-Root", serial, true, nil)
+		R := must(tR, tR, &kR.PublicKey, kR)
+		tI := tmpl("LA-Inter", serial+1, true, nil)
+		I := must(tI, tR, &kI.PublicKey, kR)
+		L := must(tmpl("la-leaf", serial+2, false, []string{"la.example"}), tI, &kL.PublicKey, kI)
+		if R == nil || I == nil || L == nil {
+			rep.Note("lookalike: could not build the genuine certificates")
+			return
+		}
+		type forged struct {
+			name string
+			cert *gx509.Certificate
+		}
+		var fs []forged
+		// (a) self-signed leaf with the root's subject and serial number, forger's key
+		fa := tmpl("LA-Root", serial, false, []string{"la.example"})
+		fs = append(fs, forged{"self-signed/root-subject+root-serial/forger-key", must(fa, fa, &kF.PublicKey, kF)})
+		// (b) the same, but claiming to be a CA
+		fb := tmpl("LA-Root", serial, true, []string{"la.example"})
+		fs = append(fs, forged{"self-signed-ca/root-subject+root-serial/forger-key", must(fb, fb, &kF.PublicKey, kF)})
+		// (c) self-signed with the intermediate's subject and serial
+		fc := tmpl("LA-Inter", serial+1, true, []string{"la.example"})
+		fs = append(fs, forged{"self-signed/intermediate-subject+serial/forger-key", must(fc, fc, &kF.PublicKey, kF)})
+		// (d) root's subject and *key* but another serial and issued by an outsider (shares name and key only)
+		tO := tmpl("Outsider", 77, true, nil)
+		fd := tmpl("LA-Root", serial+50, false, []string{"la.example"})
+		fs = append(fs, forged{"outsider-issued/root-subject+root-key", must(fd, tO, &kR.PublicKey, kF)})
+		for _, f := range fs {
+			if f.cert == nil {
+				continue
+			}
+			for _, withInter := range []bool{false, true} {
+				roots, inters := gx509.NewCertPool(), gx509.NewCertPool()
+				roots.AddCert(R)
+				inters.AddCert(I)
+				if withInter {
+					inters.AddCert(f.cert) // also offered as an intermediate
+				}
+				var chains [][]*gx509.Certificate
+				var err error
+				w := map[string]interface{}{"forged": f.name, "forged_der": mon.Hex(f.cert.Raw), "root": mon.Hex(R.Raw), "intermediate": mon.Hex(I.Raw), "also_in_intermediates": withInter}
+				if pi := mon.Guard(func() {
+					chains, err = f.cert.Verify(gx509.VerifyOptions{DNSName: "la.example", Intermediates: inters, Roots: roots, CurrentTime: fixedNow})
+				}); pi != nil {
+					rep.Violation("C10/Verify/panic/"+pi.Func, pi.Value, w)
+				} else if err == nil || len(chains) > 0 {
+					rep.Violation("C10/Verify/false-accept/lookalike/"+f.name, fmt.Sprintf("a certificate that is in no pool and is signed by nothing in the pools verified (%d chains)", len(chains)), w)
+				}
+				rep.Eval(fmt.Sprintf("lookalike/%s/inInters=%v", f.name, withInter))
+			}
+		}
+		// the genuine leaf still verifies when look-alikes sit in the intermediates pool (any insertion order)
+		for order := 0; order < 2; order++ {
+			roots, inters := gx509.NewCertPool(), gx509.NewCertPool()
+			roots.AddCert(R)
+			list := []*gx509.Certificate{I}
+			for _, f := range fs {
+				if f.cert != nil {
+					list = append(list, f.cert)
+				}
+			}
+			if order == 1 {
+				for i, j := 0, len(list)-1; i < j; i, j = i+1, j-1 {
+					list[i], list[j] = list[j], list[i]
+				}
+			}
+			for _, x := range list {
+				inters.AddCert(x)
+			}
+			var chains [][]*gx509.Certificate
+			var err error
+			if pi := mon.Guard(func() {
+				chains, err = L.Verify(gx509.VerifyOptions{DNSName: "la.example", Intermediates: inters, Roots: roots, CurrentTime: fixedNow})
+			}); pi != nil {
+				rep.Violation("C10/Verify/panic/"+pi.Func, pi.Value, nil)
+			} else if err != nil || len(chains) == 0 {
+				rep.Violation("C10/Verify/false-reject/lookalikes-in-intermediates", fmt.Sprintf("order %d: %v", order, err), map[string]interface{}{"leaf": mon.Hex(L.Raw)})
+			} else {
+				for _, ch := range chains {
+					if len(ch) != 3 || !bytes.Equal(ch[1].Raw, I.Raw) || !bytes.Equal(ch[2].Raw, R.Raw) {
+						rep.Violation("C10/Verify/returned-chain-invalid/lookalike-in-chain", fmt.Sprintf("chain of %d", len(ch)), nil)
+					}
+				}
+			}
+			rep.Eval(fmt.Sprintf("lookalike/genuine-leaf/order=%d", order))
+		}
 	}
 }
